@@ -799,6 +799,18 @@ int _vnacal_new_add_common(vnacal_new_add_arguments_t vnaa)
     }
 
     /*
+     * Validate all parameter handles before entering any of them into
+     * the vnacal_new_t structure: a refused standard must not leave a
+     * held (or, worse, an unknown) parameter behind.
+     */
+    for (int s_cell = 0; s_cell < s_cells; ++s_cell) {
+	if (_vnacal_new_check_parameter(function, vnp,
+		    s_matrix[s_cell]) == -1) {
+	    goto out;
+	}
+    }
+
+    /*
      * Construct the vnacal_new_measurement_t S matrix.
      */
     if ((vnmp->vnm_s_matrix = full_s_matrix =
